@@ -151,8 +151,11 @@ func readToEOF(r io.Reader, buf []byte) (n int, err error) {
 		// This is paranoic, but some readers will return
 		// quickly when passed a zero-length byte slice.
 		var dummy [1]byte
-		_, err = r.Read(dummy[:])
-		if err == nil {
+		var nn int
+		nn, err = r.Read(dummy[:])
+		if nn > 0 || err == nil {
+			// A reader may return its last byte together
+			// with io.EOF: that byte does not fit either.
 			return n, io.ErrShortBuffer
 		}
 		if err == io.EOF {
